@@ -106,7 +106,8 @@ def explore_main(prog, world, mode):
 
 
 def explore(arg):
-    mode, repo = arg
+    mode, repo = arg[0], arg[1]
+    whole_main = len(arg) > 2 and arg[2]
     t0 = time.time()
     out = {'mode': mode, 'error': None, 'obligations': [], 'paths': 0, 'functions': []}
     try:
@@ -115,7 +116,7 @@ def explore(arg):
         scope = ['a', 'b', 'd'] if mode == 'all' else ['a', 'd']
         world = VfsWorld(PATHS, state_files=[], always_dirs=('/', '/p'), links=LINKS)
         try:
-            if os.environ.get('ZX_C12_WHOLE_MAIN'):
+            if os.environ.get('ZX_C12_WHOLE_MAIN') or whole_main:
                 raise Unsupported('whole-main entry requested')
             node = find_clean_if(prog)
         except Unsupported as ex_:
@@ -322,8 +323,12 @@ def expected_deleted(mode, world):
 
 def run(prop, tier, seed, repo, jobs):
     t0 = time.time()
-    with Pool(2) as pool:
-        results = pool.map(explore, [('all', repo), ('some', repo)], chunksize=1)
+    variants = [('all', repo), ('some', repo)]
+    if tier == 'thorough':
+        # both entries: the cut-out --clean branch and the whole of main() with --clean / --clean a
+        variants += [('all', repo, True), ('some', repo, True)]
+    with Pool(len(variants)) as pool:
+        results = pool.map(explore, variants, chunksize=1)
     violations, inconclusive, known_lines, samples = [], [], [], []
     fns = set()
     nob = ndis = paths = 0
